@@ -92,3 +92,11 @@ pub mod verif_hooks_reconfunits {
     //! Verification hooks (add-only): a null-out target from given links.
     pub use super::null::verif_hooks_reconfunits::*;
 }
+
+#[cfg(feature = "verif-hooks")]
+pub mod verif_hooks_unitmetrics {
+    //! Verification hooks (add-only, area UnitMetrics): the mqtt-out target
+    //! on a scripted broker that also reports an in-flight figure, with the
+    //! target's metrics source.
+    pub use super::mqtt::target::verif_hooks_unitmetrics::*;
+}
